@@ -29,6 +29,13 @@ type c05Case struct {
 
 const c05Target = int64(5)
 
+// hooks for other properties' parts that reuse this pipeline (C18): an additional oracle on the node's stores after every
+// start-up and at the end, and a height at which the application returns a retain height above the tip
+var (
+	c05ExtraCheck     func(n *rtNode) (key, what string)
+	c05RetainBeyondAt int64
+)
+
 func c05Env() *rtEnv {
 	var e *rtEnv
 	script := func(h int64) (vu []abci.ValidatorUpdate, params *abci.ConsensusParams, retain int64) {
@@ -45,6 +52,9 @@ func c05Env() *rtEnv {
 		}
 		if h >= 3 {
 			retain = h - 1
+		}
+		if h == c05RetainBeyondAt {
+			retain = h + 1 // an application asking for more than there is
 		}
 		return
 	}
@@ -219,6 +229,13 @@ func c05Run(c c05Case) (res c05Result) {
 				res.key, res.what = k, fmt.Sprintf("incarnation %d: %s", inc, wh)
 				return
 			}
+			if c05ExtraCheck != nil {
+				if k, wh := c05ExtraCheck(n); k != "" {
+					n.kill()
+					res.key, res.what = k, fmt.Sprintf("incarnation %d, after start-up: %s", inc, wh)
+					return
+				}
+			}
 			c05Feed(n)
 			why = n.runDefault(func() bool {
 				if n.cs.Height >= c.Target && n.cs.Step == 1 /* NewHeight */ {
@@ -255,6 +272,12 @@ func c05Run(c c05Case) (res c05Result) {
 			if k, wh := c05TxOrder(n); k != "" {
 				res.key, res.what = k, wh
 				return
+			}
+			if c05ExtraCheck != nil {
+				if k, wh := c05ExtraCheck(n); k != "" {
+					res.key, res.what = k, fmt.Sprintf("incarnation %d, at the target height: %s", inc, wh)
+					return
+				}
 			}
 		case why == "dead":
 			res.key, res.what = "node:halts-without-a-crash", fmt.Sprintf("incarnation %d: %s", inc, n.dead)
